@@ -508,3 +508,1049 @@ Proof.
       rewrite <- S, alias_key_is_alias in P. discriminate.
     + apply alias_key_inj in S. apply (Hp c' Hc'). congruence.
 Qed.
+
+(* ====================================================================================== *)
+(* the environment-wide bind map                                                           *)
+(* ====================================================================================== *)
+(* an endpoint as the scheduler creates it / as the environment map stores it *)
+Definition raw (e : endpoint) : Prop :=
+  match e with Tcp h _ _ => h = s_star | Ipc _ _ => True end.
+Definition substituted (e : endpoint) : Prop :=
+  match e with Tcp h _ _ => host_ok h | Ipc _ _ => True end.
+Definition all_subst (bm : bindmap) : Prop := forall k ex, assoc k bm = Some ex -> substituted ex.
+
+Lemma mk_ep_raw c a : raw (mk_ep c a).
+Proof. unfold mk_ep. destruct (i_ipc c); cbn; reflexivity. Qed.
+
+Lemma to_target_substituted h e : host_ok h -> substituted (to_target h e).
+Proof. intro H. destruct e; cbn; [exact H|exact I]. Qed.
+
+Lemma raw_subst_ipc e : raw e -> substituted e -> exists p t, e = Ipc p t.
+Proof.
+  destruct e as [h p t|p t]; cbn.
+  - intros R [_ S]. contradiction.
+  - intros _ _. exists p, t. reflexivity.
+Qed.
+
+Lemma to_target_ipc h p t : to_target h (Ipc p t) = Ipc p t.
+Proof. reflexivity. Qed.
+
+Lemma to_target_is_ipc h e p t : to_target h e = Ipc p t -> e = Ipc p t.
+Proof. destruct e; cbn; intro H; [discriminate|exact H]. Qed.
+
+Lemma bind_key_alias path n : is_alias_key n = true -> bind_key path n = n.
+Proof. intro H. unfold bind_key. rewrite H. reflexivity. Qed.
+
+Lemma bind_key_path path n : is_alias_key n = false -> bind_key path n = path ++ s_colon ++ n.
+Proof. intro H. unfold bind_key. rewrite H. reflexivity. Qed.
+
+(* ---------- one task's entries ---------- *)
+Lemma env_add_other : forall entries path host bm bm' k,
+  env_add path host entries bm = Some bm' ->
+  (forall n ep, In (n, ep) entries -> bind_key path n <> k) ->
+  assoc k bm' = assoc k bm.
+Proof.
+  induction entries as [|[n ep] r IH]; intros path host bm bm' k H Hn; cbn [env_add] in H.
+  - inversion H. reflexivity.
+  - assert (Hr : forall n' ep', In (n', ep') r -> bind_key path n' <> k).
+    { intros n' ep' Hi. apply (Hn n' ep'). right. exact Hi. }
+    specialize (Hn n ep (or_introl eq_refl)).
+    destruct (is_alias_key n) eqn:A.
+    + rewrite bind_key_alias in Hn by exact A.
+      destruct (assoc n bm) as [ex|] eqn:E.
+      * destruct (ep_eqb ex ep); [|discriminate]. apply (IH _ _ _ _ _ H Hr).
+      * rewrite (IH _ _ _ _ _ H Hr). apply assoc_set_other. exact Hn.
+    + rewrite bind_key_path in Hn by exact A.
+      rewrite (IH _ _ _ _ _ H Hr). apply assoc_set_other. exact Hn.
+Qed.
+
+Lemma env_add_sets_path : forall e1 path host n ep e2 bm bm',
+  is_alias_key n = false ->
+  env_add path host (e1 ++ (n, ep) :: e2) bm = Some bm' ->
+  (forall n' ep', In (n', ep') e2 -> bind_key path n' <> path ++ s_colon ++ n) ->
+  assoc (path ++ s_colon ++ n) bm' = Some (to_target host ep).
+Proof.
+  induction e1 as [|[n0 ep0] e1 IH]; intros path host n ep e2 bm bm' A H Hn; cbn [app env_add] in H.
+  - rewrite A in H. rewrite (env_add_other _ _ _ _ _ _ H Hn). apply assoc_set_same.
+  - destruct (is_alias_key n0).
+    + destruct (assoc n0 bm) as [ex|].
+      * destruct (ep_eqb ex ep0); [|discriminate]. apply (IH _ _ _ _ _ _ _ A H Hn).
+      * apply (IH _ _ _ _ _ _ _ A H Hn).
+    + apply (IH _ _ _ _ _ _ _ A H Hn).
+Qed.
+
+Lemma env_add_subst : forall entries path host bm bm',
+  host_ok host -> all_subst bm -> env_add path host entries bm = Some bm' -> all_subst bm'.
+Proof.
+  induction entries as [|[n ep] r IH]; intros path host bm bm' Hh Hs H; cbn [env_add] in H.
+  - inversion H; subst. exact Hs.
+  - assert (Hset : forall k, all_subst (bm_set k (to_target host ep) bm)).
+    { intros k k' ex Hk. apply assoc_set_inv in Hk. destruct Hk as [[_ ->]|[_ Hk]].
+      - apply to_target_substituted, Hh.
+      - apply (Hs _ _ Hk). }
+    destruct (is_alias_key n).
+    + destruct (assoc n bm) as [ex|].
+      * destruct (ep_eqb ex ep); [|discriminate]. apply (IH _ _ _ _ Hh Hs H).
+      * apply (IH _ _ _ _ Hh (Hset n) H).
+    + apply (IH _ _ _ _ Hh (Hset _) H).
+Qed.
+
+(* an alias entry, once present, is never replaced *)
+Lemma env_add_alias_stable : forall entries path host bm bm' k ex,
+  path_ok path -> is_alias_key k = true -> assoc k bm = Some ex ->
+  env_add path host entries bm = Some bm' -> assoc k bm' = Some ex.
+Proof.
+  induction entries as [|[n ep] r IH]; intros path host bm bm' k ex Hp A E H; cbn [env_add] in H.
+  - inversion H; subst. exact E.
+  - destruct (is_alias_key n) eqn:An.
+    + destruct (assoc n bm) as [ex0|] eqn:E0.
+      * destruct (ep_eqb ex0 ep); [|discriminate]. apply (IH _ _ _ _ _ _ Hp A E H).
+      * apply (IH _ _ _ _ _ _ Hp A) with (2 := H).
+        rewrite assoc_set_other; [exact E|]. intro X. subst. congruence.
+    + apply (IH _ _ _ _ _ _ Hp A) with (2 := H).
+      rewrite assoc_set_other; [exact E|]. intro X.
+      rewrite <- X, path_key_not_alias in A by exact Hp. discriminate.
+Qed.
+
+(* a later claim of a present alias passes only with an endpoint equal to the stored one *)
+Lemma env_add_alias_check : forall entries path host bm bm' k ex ep,
+  path_ok path -> is_alias_key k = true -> assoc k bm = Some ex -> In (k, ep) entries ->
+  env_add path host entries bm = Some bm' -> ex = ep.
+Proof.
+  induction entries as [|[n ep0] r IH]; intros path host bm bm' k ex ep Hp A E HI H; [contradiction|].
+  cbn [env_add] in H. destruct HI as [HI|HI].
+  - inversion HI; subst. rewrite A, E in H.
+    destruct (ep_eqb ex ep) eqn:Q; [|discriminate]. apply ep_eqb_spec. exact Q.
+  - destruct (is_alias_key n) eqn:An.
+    + destruct (assoc n bm) as [ex0|] eqn:E0.
+      * destruct (ep_eqb ex0 ep0); [|discriminate]. apply (IH _ _ _ _ _ _ _ Hp A E HI H).
+      * apply (IH _ _ _ _ _ _ _ Hp A) with (2 := HI) (3 := H).
+        rewrite assoc_set_other; [exact E|]. intro X. subst. congruence.
+    + apply (IH _ _ _ _ _ _ _ Hp A) with (2 := HI) (3 := H).
+      rewrite assoc_set_other; [exact E|]. intro X.
+      rewrite <- X, path_key_not_alias in A by exact Hp. discriminate.
+Qed.
+
+(* after a task that claims an alias, the alias is present: either this task registered it
+   (host substituted) or an equal endpoint had been registered before *)
+Lemma env_add_alias_entry : forall entries path host bm bm' k ep,
+  path_ok path -> is_alias_key k = true -> In (k, ep) entries ->
+  env_add path host entries bm = Some bm' ->
+  exists ex, assoc k bm' = Some ex /\ (ex = to_target host ep \/ ex = ep).
+Proof.
+  induction entries as [|[n ep0] r IH]; intros path host bm bm' k ep Hp A HI H; [contradiction|].
+  cbn [env_add] in H. destruct HI as [HI|HI].
+  - inversion HI; subst. rewrite A in H. destruct (assoc k bm) as [ex0|] eqn:E0.
+    + destruct (ep_eqb ex0 ep) eqn:Q; [|discriminate]. apply ep_eqb_spec in Q. subst ex0.
+      exists ep. split; [|right; reflexivity]. apply (env_add_alias_stable _ _ _ _ _ _ _ Hp A E0 H).
+    + exists (to_target host ep). split; [|left; reflexivity].
+      apply (env_add_alias_stable _ _ _ _ _ _ _ Hp A) with (2 := H). apply assoc_set_same.
+  - destruct (is_alias_key n).
+    + destruct (assoc n bm) as [ex0|].
+      * destruct (ep_eqb ex0 ep0); [|discriminate]. apply (IH _ _ _ _ _ _ Hp A HI H).
+      * apply (IH _ _ _ _ _ _ Hp A HI H).
+    + apply (IH _ _ _ _ _ _ Hp A HI H).
+Qed.
+
+(* ---------- all tasks ---------- *)
+Lemma env_from_app : forall l1 l2 bm,
+  env_from (l1 ++ l2) bm =
+  match env_from l1 bm with None => None | Some bm1 => env_from l2 bm1 end.
+Proof.
+  induction l1 as [|t l1 IH]; intros l2 bm; cbn [app env_from]; [reflexivity|].
+  destruct (env_add (t_path t) (t_host t) (t_local t) bm); [apply IH|reflexivity].
+Qed.
+
+Lemma env_from_split pre b post bm0 bm :
+  env_from (pre ++ b :: post) bm0 = Some bm ->
+  exists bm1 bm2, env_from pre bm0 = Some bm1 /\
+                  env_add (t_path b) (t_host b) (t_local b) bm1 = Some bm2 /\
+                  env_from post bm2 = Some bm.
+Proof.
+  rewrite env_from_app. destruct (env_from pre bm0) as [bm1|] eqn:E1; [|discriminate].
+  cbn [env_from]. destruct (env_add (t_path b) (t_host b) (t_local b) bm1) as [bm2|] eqn:E2; [|discriminate].
+  intro H. exists bm1, bm2. split; [reflexivity|]. split; [exact E2|exact H].
+Qed.
+
+Definition writes_key (t : task) (k : str) : Prop :=
+  exists n ep, In (n, ep) (t_local t) /\ bind_key (t_path t) n = k.
+
+Lemma env_from_other : forall tasks bm bm' k,
+  env_from tasks bm = Some bm' -> (forall t, In t tasks -> ~ writes_key t k) ->
+  assoc k bm' = assoc k bm.
+Proof.
+  induction tasks as [|t r IH]; intros bm bm' k H Hn; cbn [env_from] in H.
+  - inversion H. reflexivity.
+  - destruct (env_add (t_path t) (t_host t) (t_local t) bm) as [bm1|] eqn:E; [|discriminate].
+    rewrite (IH _ _ _ H) by (intros t' Ht'; apply Hn; right; exact Ht').
+    apply (env_add_other _ _ _ _ _ _ E). intros n ep Hi X.
+    apply (Hn t (or_introl eq_refl)). exists n, ep. split; assumption.
+Qed.
+
+Lemma env_from_subst : forall tasks bm bm',
+  (forall t, In t tasks -> host_ok (t_host t)) -> all_subst bm ->
+  env_from tasks bm = Some bm' -> all_subst bm'.
+Proof.
+  induction tasks as [|t r IH]; intros bm bm' Hh Hs H; cbn [env_from] in H.
+  - inversion H; subst. exact Hs.
+  - destruct (env_add (t_path t) (t_host t) (t_local t) bm) as [bm1|] eqn:E; [|discriminate].
+    apply (IH bm1 bm'); [intros t' Ht'; apply Hh; right; exact Ht'| |exact H].
+    apply (env_add_subst _ _ _ _ _ (Hh t (or_introl eq_refl)) Hs E).
+Qed.
+
+Lemma env_from_alias_stable : forall tasks bm bm' k ex,
+  (forall t, In t tasks -> path_ok (t_path t)) -> is_alias_key k = true -> assoc k bm = Some ex ->
+  env_from tasks bm = Some bm' -> assoc k bm' = Some ex.
+Proof.
+  induction tasks as [|t r IH]; intros bm bm' k ex Hp A E H; cbn [env_from] in H.
+  - inversion H; subst. exact E.
+  - destruct (env_add (t_path t) (t_host t) (t_local t) bm) as [bm1|] eqn:E1; [|discriminate].
+    apply (IH bm1 bm' k ex); [intros t' Ht'; apply Hp; right; exact Ht'|exact A| |exact H].
+    apply (env_add_alias_stable _ _ _ _ _ _ _ (Hp t (or_introl eq_refl)) A E E1).
+Qed.
+
+Lemma all_subst_nil : all_subst [].
+Proof. intros k ex H. discriminate. Qed.
+
+(* keys of a task's local map are pairwise different, so membership and lookup coincide *)
+Lemma local_In_assoc t n ep : In (n, ep) (t_local t) <-> assoc n (t_local t) = Some ep.
+Proof.
+  split; [|apply assoc_In]. apply assoc_nodup_In. apply local_bindmap_nodup.
+Qed.
+
+(* ---------- well-formed environments ---------- *)
+Definition no_colon (p : str) : Prop := ~ In 58 p.
+Definition wf_env (tasks : list task) : Prop :=
+  NoDup (map t_path tasks) /\
+  forall t, In t tasks -> t_path t <> [] /\ no_colon (t_path t) /\ host_ok (t_host t).
+
+Lemma no_colon_path_ok p : p <> [] -> no_colon p -> path_ok p.
+Proof.
+  destruct p as [|c p]; [congruence|]. intros _ H. cbn. intro E. apply H. left. exact E.
+Qed.
+
+Lemma key_inj : forall p p' n n',
+  no_colon p -> no_colon p' -> p ++ s_colon ++ n = p' ++ s_colon ++ n' -> p = p' /\ n = n'.
+Proof.
+  unfold no_colon, s_colon.
+  induction p as [|c p IH]; intros [|c' p'] n n' H H'; cbn [app]; intro E.
+  - inversion E. split; reflexivity.
+  - inversion E; subst. exfalso. apply H'. left. reflexivity.
+  - inversion E; subst. exfalso. apply H. left. reflexivity.
+  - inversion E; subst. destruct (IH p' n n') as [E1 E2].
+    + intro X. apply H. right. exact X.
+    + intro X. apply H'. right. exact X.
+    + assumption.
+    + subst. split; reflexivity.
+Qed.
+
+Lemma wf_env_path_ok tasks t : wf_env tasks -> In t tasks -> path_ok (t_path t).
+Proof. intros [_ H] Ht. destruct (H t Ht) as (H1 & H2 & _). apply no_colon_path_ok; assumption. Qed.
+
+Lemma wf_env_host_ok tasks t : wf_env tasks -> In t tasks -> host_ok (t_host t).
+Proof. intros [_ H] Ht. destruct (H t Ht) as (_ & _ & H3). exact H3. Qed.
+
+(* the entry under "path:name" is the named channel's endpoint with the binder's host *)
+Lemma env_bindmap_path tasks bm b n ep :
+  wf_env tasks -> env_bindmap tasks = Some bm -> In b tasks ->
+  assoc n (t_local b) = Some ep -> is_alias_key n = false ->
+  assoc (t_path b ++ s_colon ++ n) bm = Some (to_target (t_host b) ep).
+Proof.
+  intros W H Hb Hl A. destruct (in_split _ _ Hb) as (pre & post & ->).
+  unfold env_bindmap in H. destruct (env_from_split _ _ _ _ _ H) as (bm1 & bm2 & H1 & H2 & H3).
+  assert (Pb : path_ok (t_path b)) by (apply (wf_env_path_ok _ _ W Hb)).
+  assert (Nb : no_colon (t_path b)). { destruct W as [_ W]. apply (W b Hb). }
+  rewrite (env_from_other _ _ _ _ H3).
+  - apply assoc_In in Hl. destruct (in_split _ _ Hl) as (e1 & e2 & El).
+    rewrite El in H2. apply (env_add_sets_path _ _ _ _ _ _ _ _ A H2).
+    intros n' ep' Hi X.
+    pose proof (local_bindmap_nodup (t_in b) (t_alloc b)) as ND. fold (t_local b) in ND.
+    rewrite El, map_app in ND. cbn [map fst] in ND. apply NoDup_remove_2 in ND.
+    destruct (is_alias_key n') eqn:A'.
+    + rewrite bind_key_alias in X by exact A'. rewrite X, path_key_not_alias in A' by exact Pb. discriminate.
+    + rewrite bind_key_path in X by exact A'. apply app_inv_head in X. apply app_inv_head in X. subst n'.
+      apply ND. apply in_or_app. right. change n with (fst (n, ep')). apply in_map. exact Hi.
+  - intros t Ht (n' & ep' & Hi & X).
+    destruct W as [ND W]. rewrite map_app in ND. cbn [map] in ND. apply NoDup_remove_2 in ND.
+    destruct (is_alias_key n') eqn:A'.
+    + rewrite bind_key_alias in X by exact A'. rewrite X, path_key_not_alias in A' by exact Pb. discriminate.
+    + rewrite bind_key_path in X by exact A'.
+      assert (Nt : no_colon (t_path t)). { apply W. apply in_or_app. right. right. exact Ht. }
+      destruct (key_inj _ _ _ _ Nt Nb X) as [Ep _].
+      apply ND. apply in_or_app. right. rewrite <- Ep. apply in_map. exact Ht.
+Qed.
+
+(* the entry under "::alias" after a successful pass: present, and it stands for the endpoint
+   of every task that claims the alias *)
+Lemma env_bindmap_alias_entry tasks bm b k ep :
+  (forall t, In t tasks -> path_ok (t_path t)) ->
+  env_bindmap tasks = Some bm -> In b tasks -> In (k, ep) (t_local b) -> is_alias_key k = true ->
+  exists ex, assoc k bm = Some ex /\ (ex = to_target (t_host b) ep \/ ex = ep).
+Proof.
+  intros Hp H Hb Hl A. destruct (in_split _ _ Hb) as (pre & post & ->).
+  unfold env_bindmap in H. destruct (env_from_split _ _ _ _ _ H) as (bm1 & bm2 & H1 & H2 & H3).
+  destruct (env_add_alias_entry _ _ _ _ _ _ _ (Hp b Hb) A Hl H2) as (ex & E & D).
+  exists ex. split; [|exact D].
+  apply (env_from_alias_stable post bm2 bm k ex); try assumption.
+  intros t Ht. apply Hp. apply in_or_app. right. right. exact Ht.
+Qed.
+
+Lemma local_entry_raw t k ep : In (k, ep) (t_local t) -> raw ep.
+Proof.
+  intro H. apply local_In_assoc in H. apply local_bindmap_inv in H.
+  destruct H as (i & c & _ & _ & ->). apply mk_ep_raw.
+Qed.
+
+Lemma env_bindmap_subst tasks bm :
+  (forall t, In t tasks -> host_ok (t_host t)) -> env_bindmap tasks = Some bm -> all_subst bm.
+Proof. intros Hh H. apply (env_from_subst tasks [] bm Hh all_subst_nil H). Qed.
+
+Lemma env_bindmap_alias tasks bm b k ep :
+  (forall t, In t tasks -> path_ok (t_path t)) -> (forall t, In t tasks -> host_ok (t_host t)) ->
+  env_bindmap tasks = Some bm -> In b tasks -> In (k, ep) (t_local b) -> is_alias_key k = true ->
+  exists ex, assoc k bm = Some ex /\
+             ep_address ex = ep_address (to_target (t_host b) ep) /\ ep_transport ex = ep_transport ep.
+Proof.
+  intros Hp Hh H Hb Hl A.
+  destruct (env_bindmap_alias_entry _ _ _ _ _ Hp H Hb Hl A) as (ex & E & [D|D]); exists ex.
+  - subst ex. split; [exact E|]. split; [reflexivity|apply transport_to_target].
+  - subst ex. split; [exact E|].
+    destruct (raw_subst_ipc ep (local_entry_raw _ _ _ Hl) (env_bindmap_subst _ _ Hh H _ _ E)) as (p & t & ->).
+    split; reflexivity.
+Qed.
+
+(* two tasks claiming one alias: the configuration passes only if both endpoints are the same
+   IPC endpoint *)
+Lemma env_from_alias_two pre b1 mid b2 post bm k e1 e2 :
+  let tasks := pre ++ b1 :: mid ++ b2 :: post in
+  (forall t, In t tasks -> path_ok (t_path t)) -> (forall t, In t tasks -> host_ok (t_host t)) ->
+  env_bindmap tasks = Some bm -> is_alias_key k = true ->
+  In (k, e1) (t_local b1) -> In (k, e2) (t_local b2) ->
+  exists p tr, e1 = Ipc p tr /\ e2 = Ipc p tr.
+Proof.
+  intros tasks Hp Hh H A H1 H2. subst tasks.
+  assert (In1 : In b1 (pre ++ b1 :: mid ++ b2 :: post)) by (apply in_or_app; right; left; reflexivity).
+  assert (In2 : In b2 (pre ++ b1 :: mid ++ b2 :: post)).
+  { apply in_or_app. right. right. apply in_or_app. right. left. reflexivity. }
+  pose proof (env_bindmap_subst _ _ Hh H) as Hs.
+  unfold env_bindmap in H. destruct (env_from_split _ _ _ _ _ H) as (bm1 & bm2 & F1 & F2 & F3).
+  destruct (env_add_alias_entry _ _ _ _ _ _ _ (Hp b1 In1) A H1 F2) as (ex & E & D).
+  destruct (env_from_split _ _ _ _ _ F3) as (bm3 & bm4 & G1 & G2 & G3).
+  assert (E3 : assoc k bm3 = Some ex).
+  { apply (env_from_alias_stable mid bm2 bm3 k ex); try assumption.
+    intros t Ht. apply Hp. apply in_or_app. right. right. apply in_or_app. left. exact Ht. }
+  pose proof (env_add_alias_check _ _ _ _ _ _ _ _ (Hp b2 In2) A E3 H2 G2) as X. subst ex.
+  assert (E4 : assoc k bm4 = Some e2) by (apply (env_add_alias_stable _ _ _ _ _ _ _ (Hp b2 In2) A E3 G2)).
+  assert (E5 : assoc k bm = Some e2).
+  { apply (env_from_alias_stable post bm4 bm k e2); try assumption.
+    intros t Ht. apply Hp. apply in_or_app. right. right. apply in_or_app. right. right. exact Ht. }
+  destruct (raw_subst_ipc e2 (local_entry_raw _ _ _ H2) (Hs _ _ E5)) as (p & tr & ->).
+  exists p, tr. split; [|reflexivity].
+  destruct D as [D|D]; [|symmetry; exact D].
+  symmetry in D. apply to_target_is_ipc in D. exact D.
+Qed.
+
+(* ====================================================================================== *)
+(* the chans.* part of the CONFIGURE payload                                               *)
+(* ====================================================================================== *)
+Lemma given_nodup n v (pr : props) : NoDup (map fst pr) -> In (n, v) pr -> given n pr = Some v.
+Proof.
+  intros ND HI. unfold given. apply assoc_nodup_In.
+  - rewrite map_rev. apply NoDup_rev. exact ND.
+  - apply in_rev in HI. exact HI.
+Qed.
+
+Lemma in_writes_keys local ins x : In x (map fst (in_writes local ins)) -> In x (map i_name ins).
+Proof.
+  unfold in_writes. induction ins as [|i ins IH]; cbn [flat_map map]; [intros []|].
+  rewrite map_app. intro H. apply in_app_or in H. destruct H as [H|H].
+  - destruct (inbound_props local i); cbn in H; [|contradiction].
+    destruct H as [H|[]]. left. exact H.
+  - right. apply IH, H.
+Qed.
+
+Lemma in_writes_nodup local ins : NoDup (map i_name ins) -> NoDup (map fst (in_writes local ins)).
+Proof.
+  unfold in_writes. induction ins as [|i ins IH]; cbn [flat_map map]; intro ND; [constructor|].
+  inversion ND as [|x xs Hnot ND']; subst. rewrite map_app. apply nodup_app_intro.
+  - destruct (inbound_props local i); cbn; [constructor; [intros []|constructor]|constructor].
+  - apply IH, ND'.
+  - intros x Hx Hy. destruct (inbound_props local i); cbn in Hx; [|contradiction].
+    destruct Hx as [Hx|[]]. subst x. apply Hnot. apply (in_writes_keys local ins). exact Hy.
+Qed.
+
+Lemma in_writes_In local ins i p :
+  In i ins -> inbound_props local i = Some p -> In (i_name i, p) (in_writes local ins).
+Proof.
+  intros HI HP. unfold in_writes. apply in_flat_map. exists i. split; [exact HI|].
+  rewrite HP. left. reflexivity.
+Qed.
+
+Lemma out_writes_keys : forall bm outs w, out_writes bm outs = Some w -> map fst w = map o_name outs.
+Proof.
+  induction outs as [|o r IH]; intros w H; cbn [out_writes] in H.
+  - inversion H. reflexivity.
+  - destruct (outbound_props bm o) as [p|]; [|discriminate].
+    destruct (out_writes bm r) as [w'|]; [|discriminate].
+    inversion H; subst. cbn. f_equal. apply IH. reflexivity.
+Qed.
+
+Lemma out_writes_In : forall bm outs w o,
+  out_writes bm outs = Some w -> In o outs ->
+  exists p, outbound_props bm o = Some p /\ In (o_name o, p) w.
+Proof.
+  induction outs as [|o' r IH]; intros w o H HI; [contradiction|]. cbn [out_writes] in H.
+  destruct (outbound_props bm o') as [p|] eqn:P; [|discriminate].
+  destruct (out_writes bm r) as [w'|] eqn:W; [|discriminate].
+  inversion H; subst. destruct HI as [HI|HI].
+  - subst. exists p. split; [exact P|left; reflexivity].
+  - destruct (IH w' o eq_refl HI) as (p' & P' & I'). exists p'. split; [exact P'|right; exact I'].
+Qed.
+
+Lemma out_writes_none : forall bm outs o,
+  In o outs -> outbound_props bm o = None -> out_writes bm outs = None.
+Proof.
+  induction outs as [|o' r IH]; intros o HI HP; [contradiction|]. cbn [out_writes].
+  destruct HI as [HI|HI].
+  - subst. rewrite HP. reflexivity.
+  - rewrite (IH o HI HP). destruct (outbound_props bm o'); reflexivity.
+Qed.
+
+Lemma task_props_nodup bm t pr :
+  t_chans t = true -> NoDup (names_of t) -> task_props bm t = Some pr ->
+  NoDup (map fst pr) /\
+  exists w, out_writes bm (t_out t) = Some w /\ pr = in_writes (t_local t) (t_in t) ++ w.
+Proof.
+  intros C ND H. unfold task_props in H. rewrite C in H.
+  destruct (out_writes bm (t_out t)) as [w|] eqn:W; [|discriminate]. inversion H; subst.
+  split; [|exists w; split; reflexivity].
+  unfold names_of in ND. apply nodup_app_elim in ND. destruct ND as (N1 & N2 & N3).
+  rewrite map_app. apply nodup_app_intro.
+  - apply in_writes_nodup, N1.
+  - rewrite (out_writes_keys _ _ _ W). exact N2.
+  - intros x Hx Hy. apply in_writes_keys in Hx. rewrite (out_writes_keys _ _ _ W) in Hy.
+    apply (N3 x Hx Hy).
+Qed.
+
+Lemma all_props_nth : forall bm tasks ps j t,
+  all_props bm tasks = Some ps -> nth_error tasks j = Some t ->
+  exists pr, nth_error ps j = Some pr /\ task_props bm t = Some pr.
+Proof.
+  induction tasks as [|t' r IH]; intros ps j t H Hn; [destruct j; discriminate|].
+  cbn [all_props] in H. destruct (task_props bm t') as [p|] eqn:P; [|discriminate].
+  destruct (all_props bm r) as [ps'|] eqn:A; [|discriminate]. inversion H; subst.
+  destruct j as [|j]; cbn [nth_error] in *.
+  - inversion Hn; subst. exists p. split; [reflexivity|exact P].
+  - apply (IH ps' j t eq_refl Hn).
+Qed.
+
+Lemma all_props_none : forall bm tasks t,
+  In t tasks -> task_props bm t = None -> all_props bm tasks = None.
+Proof.
+  induction tasks as [|t' r IH]; intros t HI HP; [contradiction|]. cbn [all_props].
+  destruct HI as [HI|HI].
+  - subst. rewrite HP. reflexivity.
+  - rewrite (IH t HI HP). destruct (task_props bm t'); reflexivity.
+Qed.
+
+Lemma all_props_length : forall bm tasks ps, all_props bm tasks = Some ps -> length ps = length tasks.
+Proof.
+  induction tasks as [|t r IH]; intros ps H; cbn [all_props] in H.
+  - inversion H. reflexivity.
+  - destruct (task_props bm t); [|discriminate]. destruct (all_props bm r) as [ps'|]; [|discriminate].
+    inversion H; subst. cbn. f_equal. apply IH. reflexivity.
+Qed.
+
+(* what a successful configuration gives for one task *)
+Lemma configure_task tasks ps j t pr :
+  configure tasks = Some ps -> nth_error tasks j = Some t -> nth_error ps j = Some pr ->
+  exists bm, env_bindmap tasks = Some bm /\ task_props bm t = Some pr.
+Proof.
+  intros H Ht Hp. unfold configure in H. destruct (env_bindmap tasks) as [bm|]; [|discriminate].
+  exists bm. split; [reflexivity|].
+  destruct (all_props_nth _ _ _ _ _ H Ht) as (pr' & E & P). congruence.
+Qed.
+
+(* an outbound channel of a configured task is told what Outbound.ToFMQMap answers on the
+   environment map *)
+Lemma given_outbound bm t pr o :
+  t_chans t = true -> NoDup (names_of t) -> task_props bm t = Some pr -> In o (t_out t) ->
+  exists p, outbound_props bm o = Some p /\ given (o_name o) pr = Some p.
+Proof.
+  intros C ND H HI. destruct (task_props_nodup _ _ _ C ND H) as (NDp & w & W & ->).
+  destruct (out_writes_In _ _ _ _ W HI) as (p & P & I). exists p. split; [exact P|].
+  apply given_nodup; [exact NDp|]. apply in_or_app. right. exact I.
+Qed.
+
+Lemma given_inbound bm t pr c p :
+  t_chans t = true -> NoDup (names_of t) -> task_props bm t = Some pr -> In c (t_in t) ->
+  inbound_props (t_local t) c = Some p -> given (i_name c) pr = Some p.
+Proof.
+  intros C ND H HI HP. destruct (task_props_nodup _ _ _ C ND H) as (NDp & w & W & ->).
+  apply given_nodup; [exact NDp|]. apply in_or_app. left. apply in_writes_In; assumption.
+Qed.
+
+(* an inbound channel whose declaration the device interface refuses is told nothing *)
+Lemma given_inbound_none bm t pr c :
+  t_chans t = true -> NoDup (names_of t) -> task_props bm t = Some pr -> In c (t_in t) ->
+  inbound_props (t_local t) c = None -> given (i_name c) pr = None.
+Proof.
+  intros C ND H HI HP. destruct (task_props_nodup _ _ _ C ND H) as (NDp & w & W & ->).
+  unfold given. apply assoc_None. rewrite map_rev. intro X. apply in_rev in X.
+  rewrite map_app in X. apply in_app_or in X.
+  unfold names_of in ND. apply nodup_app_elim in ND. destruct ND as (N1 & N2 & N3).
+  destruct X as [X|X].
+  - (* the only declaration with this name is c itself, and it produced nothing *)
+    clear - N1 HI HP X. revert N1 HI X. unfold in_writes.
+    induction (t_in t) as [|i ins IH]; cbn [flat_map map]; intros N1 HI X; [contradiction|].
+    inversion N1 as [|x xs Hnot N1']; subst. rewrite map_app in X. apply in_app_or in X.
+    destruct HI as [HI|HI].
+    + subst i. rewrite HP in X. destruct X as [X|X]; [contradiction|].
+      apply Hnot. apply (in_writes_keys (t_local t) ins). exact X.
+    + destruct X as [X|X]; [|apply (IH N1' HI X)].
+      destruct (inbound_props (t_local t) i); cbn in X; [|contradiction].
+      destruct X as [X|[]]. apply Hnot. rewrite X. apply in_map. exact HI.
+  - rewrite (out_writes_keys _ _ _ W) in X. apply (N3 (i_name c)); [apply in_map; exact HI|exact X].
+Qed.
+
+(* ====================================================================================== *)
+(* the property                                                                            *)
+(* ====================================================================================== *)
+Lemma alias_not_explicit g : is_explicit (alias_key g) = false.
+Proof. reflexivity. Qed.
+
+(* connect side, target "path:name" *)
+Lemma connect_matches_bind_path tasks ps jt t pr b i c o :
+  wf_env tasks -> configure tasks = Some ps ->
+  In b tasks -> names_ok b -> nth_error (t_in b) i = Some c ->
+  nth_error tasks jt = Some t -> nth_error ps jt = Some pr -> t_chans t = true -> NoDup (names_of t) ->
+  In o (t_out t) -> o_target o = t_path b ++ s_colon ++ i_name c -> is_explicit (o_target o) = false ->
+  given (o_name o) pr = Some (conn_addr (t_host b) c (t_alloc b i), m_connect, i_tr c).
+Proof.
+  intros W H Hb [NDb PLb] Hc Ht Hpr C NDt Ho Tg Ex.
+  destruct (configure_task _ _ _ _ _ H Ht Hpr) as (bm & B & P).
+  destruct (given_outbound _ _ _ _ C NDt P Ho) as (p & Po & G). rewrite G. f_equal.
+  unfold outbound_props in Po. rewrite Ex in Po.
+  assert (L : assoc (i_name c) (t_local b) = Some (mk_ep c (t_alloc b i))).
+  { unfold t_local. apply local_bindmap_name; [|exact PLb|exact Hc].
+    unfold names_of in NDb. apply nodup_app_elim in NDb. apply NDb. }
+  assert (A : is_alias_key (i_name c) = false) by (apply PLb; apply (nth_error_In _ _ Hc)).
+  rewrite Tg, (env_bindmap_path _ _ _ _ _ W B Hb L A) in Po. inversion Po; subst.
+  rewrite address_target_mk_ep by (apply (wf_env_host_ok _ _ W Hb)).
+  rewrite transport_to_target, transport_mk_ep. reflexivity.
+Qed.
+
+(* connect side, target "::alias"; [c] is the last channel of [b] that claims the alias *)
+Lemma connect_matches_bind_alias tasks ps jt t pr b pre c post o :
+  (forall x, In x tasks -> path_ok (t_path x)) -> (forall x, In x tasks -> host_ok (t_host x)) ->
+  configure tasks = Some ps ->
+  In b tasks -> (forall c', In c' (t_in b) -> is_alias_key (i_name c') = false) ->
+  t_in b = pre ++ c :: post -> i_global c <> [] -> (forall c', In c' post -> i_global c' <> i_global c) ->
+  nth_error tasks jt = Some t -> nth_error ps jt = Some pr -> t_chans t = true -> NoDup (names_of t) ->
+  In o (t_out t) -> o_target o = alias_key (i_global c) ->
+  given (o_name o) pr = Some (conn_addr (t_host b) c (t_alloc b (length pre)), m_connect, i_tr c).
+Proof.
+  intros Hp Hh H Hb PLb Eb G Last Ht Hpr C NDt Ho Tg.
+  destruct (configure_task _ _ _ _ _ H Ht Hpr) as (bm & B & P).
+  destruct (given_outbound _ _ _ _ C NDt P Ho) as (p & Po & Gv). rewrite Gv. f_equal.
+  unfold outbound_props in Po. rewrite Tg, alias_not_explicit in Po.
+  assert (L : In (alias_key (i_global c), mk_ep c (t_alloc b (length pre))) (t_local b)).
+  { apply local_In_assoc. unfold t_local. rewrite Eb. apply local_bindmap_alias; try assumption.
+    rewrite <- Eb. exact PLb. }
+  destruct (env_bindmap_alias _ _ _ _ _ Hp Hh B Hb L (alias_key_is_alias _)) as (ex & E & Ad & Tr).
+  rewrite E in Po. inversion Po; subst. rewrite Ad, Tr.
+  rewrite address_target_mk_ep by (apply (Hh b Hb)). rewrite transport_mk_ep. reflexivity.
+Qed.
+
+(* bind side *)
+Lemma bind_told tasks ps jb b pr i c :
+  configure tasks = Some ps -> nth_error tasks jb = Some b -> nth_error ps jb = Some pr ->
+  t_chans b = true -> names_ok b -> nth_error (t_in b) i = Some c -> i_target c = [] ->
+  given (i_name c) pr = Some (bound_addr c (t_alloc b i), m_bind, i_tr c).
+Proof.
+  intros H Hb Hpr C [ND PL] Hc Tg.
+  destruct (configure_task _ _ _ _ _ H Hb Hpr) as (bm & B & P).
+  apply (given_inbound bm b pr c); try assumption; [apply (nth_error_In _ _ Hc)|].
+  unfold inbound_props. rewrite Tg. cbn [is_explicit has_prefix s_tcp s_ipc orb nonempty].
+  assert (L : assoc (i_name c) (t_local b) = Some (mk_ep c (t_alloc b i))).
+  { unfold t_local. apply local_bindmap_name; [|exact PL|exact Hc].
+    unfold names_of in ND. apply nodup_app_elim in ND. apply ND. }
+  rewrite L, address_bound_mk_ep, transport_mk_ep. reflexivity.
+Qed.
+
+(* explicit targets are handed over unchanged *)
+Lemma explicit_outbound tasks ps jt t pr o :
+  configure tasks = Some ps -> nth_error tasks jt = Some t -> nth_error ps jt = Some pr ->
+  t_chans t = true -> NoDup (names_of t) -> In o (t_out t) -> is_explicit (o_target o) = true ->
+  given (o_name o) pr = Some (o_target o, m_connect, o_tr o).
+Proof.
+  intros H Ht Hpr C ND Ho Ex.
+  destruct (configure_task _ _ _ _ _ H Ht Hpr) as (bm & B & P).
+  destruct (given_outbound _ _ _ _ C ND P Ho) as (p & Po & G). rewrite G.
+  unfold outbound_props in Po. rewrite Ex in Po. symmetry. exact Po.
+Qed.
+
+Lemma explicit_inbound tasks ps jt t pr c :
+  configure tasks = Some ps -> nth_error tasks jt = Some t -> nth_error ps jt = Some pr ->
+  t_chans t = true -> NoDup (names_of t) -> In c (t_in t) -> is_explicit (i_target c) = true ->
+  given (i_name c) pr = Some (i_target c, m_bind, i_tr c).
+Proof.
+  intros H Ht Hpr C ND Hc Ex.
+  destruct (configure_task _ _ _ _ _ H Ht Hpr) as (bm & B & P).
+  apply (given_inbound bm t pr c); try assumption.
+  unfold inbound_props. rewrite Ex. reflexivity.
+Qed.
+
+(* a target names channel [c] of task [b] *)
+Definition names_target (b : task) (c : inbound) (tgt : str) : Prop :=
+  tgt = bind_key (t_path b) (i_name c) \/ (i_global c <> [] /\ tgt = alias_key (i_global c)).
+
+Lemma writes_key_names b k : writes_key b k -> exists c, In c (t_in b) /\ names_target b c k.
+Proof.
+  intros (n & ep & Hi & E). apply local_In_assoc in Hi. apply local_bindmap_inv in Hi.
+  destruct Hi as (i & c & Hc & S & _). exists c. split; [apply (nth_error_In _ _ Hc)|].
+  destruct S as [S|[G S]]; subst n.
+  - left. symmetry. exact E.
+  - right. split; [exact G|]. rewrite bind_key_alias in E by apply alias_key_is_alias. symmetry. exact E.
+Qed.
+
+(* a target that names nothing fails the configuration *)
+Lemma unmatched_fails tasks t o :
+  In t tasks -> t_chans t = true -> In o (t_out t) -> is_explicit (o_target o) = false ->
+  (forall b c, In b tasks -> In c (t_in b) -> ~ names_target b c (o_target o)) ->
+  configure tasks = None.
+Proof.
+  intros Ht C Ho Ex Hn. unfold configure. destruct (env_bindmap tasks) as [bm|] eqn:B; [|reflexivity].
+  apply (all_props_none bm tasks t Ht). unfold task_props. rewrite C.
+  rewrite (out_writes_none bm (t_out t) o Ho); [reflexivity|].
+  unfold outbound_props. rewrite Ex.
+  unfold env_bindmap in B. rewrite (env_from_other _ _ _ (o_target o) B); [reflexivity|].
+  intros b Hb Wk. destruct (writes_key_names _ _ Wk) as (c & Hc & Nt). apply (Hn b c Hb Hc Nt).
+Qed.
+
+(* an alias claimed by two tasks is rejected unless both stand for one and the same IPC endpoint *)
+Lemma nth_error_two {A} (l : list A) j1 j2 a b :
+  nth_error l j1 = Some a -> nth_error l j2 = Some b -> (j1 < j2)%nat ->
+  exists pre mid post, l = pre ++ a :: mid ++ b :: post.
+Proof.
+  intros H1 H2 Lt. destruct (nth_error_split _ _ _ H1) as (pre & rest & -> & L).
+  rewrite nth_error_app2 in H2 by lia. rewrite L in H2.
+  destruct (j2 - j1)%nat as [|d] eqn:D; [lia|]. cbn [nth_error] in H2.
+  destruct (nth_error_split _ _ _ H2) as (mid & post & -> & _).
+  exists pre, mid, post. reflexivity.
+Qed.
+
+Lemma alias_two_tasks_rejected tasks j1 j2 b1 b2 k e1 e2 :
+  (forall x, In x tasks -> path_ok (t_path x)) -> (forall x, In x tasks -> host_ok (t_host x)) ->
+  nth_error tasks j1 = Some b1 -> nth_error tasks j2 = Some b2 -> j1 <> j2 ->
+  is_alias_key k = true -> In (k, e1) (t_local b1) -> In (k, e2) (t_local b2) ->
+  ~ (exists p tr, e1 = Ipc p tr /\ e2 = Ipc p tr) ->
+  configure tasks = None.
+Proof.
+  intros Hp Hh H1 H2 Ne A I1 I2 Nx. unfold configure.
+  destruct (env_bindmap tasks) as [bm|] eqn:B; [|reflexivity]. exfalso. apply Nx.
+  destruct (Nat.lt_total j1 j2) as [Lt|[Eq|Gt]]; [|contradiction|].
+  - destruct (nth_error_two _ _ _ _ _ H1 H2 Lt) as (pre & mid & post & E). subst tasks.
+    apply (env_from_alias_two pre b1 mid b2 post bm k e1 e2 Hp Hh B A I1 I2).
+  - destruct (nth_error_two _ _ _ _ _ H2 H1 Gt) as (pre & mid & post & E). subst tasks.
+    destruct (env_from_alias_two pre b2 mid b1 post bm k e2 e1 Hp Hh B A I2 I1) as (p & tr & X & Y).
+    exists p, tr. split; assumption.
+Qed.
+
+(* an alias claimed by a channel is present in the task's local map *)
+Lemma local_from_present : forall chs j al m k,
+  (assoc k m <> None \/ exists c, In c chs /\ sets_key c k) ->
+  assoc k (local_from chs j al m) <> None.
+Proof.
+  induction chs as [|c chs IH]; intros j al m k H; cbn [local_from].
+  - destruct H as [H|(c & [] & _)]. exact H.
+  - apply IH. destruct (sets_key_dec c k) as [S|S].
+    + left. rewrite (local_step_sets c (al j) m k S). discriminate.
+    + destruct H as [H|(c' & [Hc|Hc] & S')].
+      * left. rewrite local_step_other by exact S. exact H.
+      * subst c'. contradiction.
+      * right. exists c'. split; assumption.
+Qed.
+
+Lemma local_claim_present t c :
+  In c (t_in t) -> i_global c <> [] ->
+  exists i c', nth_error (t_in t) i = Some c' /\ sets_key c' (alias_key (i_global c)) /\
+               In (alias_key (i_global c), mk_ep c' (t_alloc t i)) (t_local t).
+Proof.
+  intros Hc G.
+  destruct (assoc (alias_key (i_global c)) (t_local t)) as [e|] eqn:E.
+  - pose proof E as E'. unfold t_local in E'. apply local_bindmap_inv in E'.
+    destruct E' as (i & c' & Hn & S & ->). exists i, c'. split; [exact Hn|]. split; [exact S|].
+    apply local_In_assoc. exact E.
+  - exfalso. revert E. unfold t_local, local_bindmap. apply local_from_present.
+    right. exists c. split; [exact Hc|]. right. split; [exact G|reflexivity].
+Qed.
+
+(* channel form: an alias claimed in two tasks, by TCP-addressed channels in one of them *)
+Lemma alias_two_tasks_tcp_rejected tasks j1 j2 b1 b2 c1 c2 :
+  (forall x, In x tasks -> path_ok (t_path x)) -> (forall x, In x tasks -> host_ok (t_host x)) ->
+  nth_error tasks j1 = Some b1 -> nth_error tasks j2 = Some b2 -> j1 <> j2 ->
+  In c1 (t_in b1) -> In c2 (t_in b2) -> i_global c1 <> [] -> i_global c2 = i_global c1 ->
+  (forall c, In c (t_in b1) -> sets_key c (alias_key (i_global c1)) -> i_ipc c = false) ->
+  configure tasks = None.
+Proof.
+  intros Hp Hh H1 H2 Ne I1 I2 G Eg Tcp1.
+  destruct (local_claim_present b1 c1 I1 G) as (i1 & c1' & N1 & S1 & L1).
+  assert (G2 : i_global c2 <> []) by congruence.
+  destruct (local_claim_present b2 c2 I2 G2) as (i2 & c2' & N2 & S2 & L2). rewrite Eg in L2.
+  apply (alias_two_tasks_rejected tasks j1 j2 b1 b2 _ _ _ Hp Hh H1 H2 Ne (alias_key_is_alias _) L1 L2).
+  intros (p & tr & X & _). unfold mk_ep in X.
+  rewrite (Tcp1 c1' (nth_error_In _ _ N1) S1) in X. discriminate.
+Qed.
+
+(* ---------- the statements the unchanged code does not meet ---------- *)
+(* "the connecting side is given the endpoint the binding side is told to bind", for every
+   inbound declaration *)
+Definition agreement_statement : Prop :=
+  forall tasks ps jb b prb i c jt t prt o,
+    wf_env tasks -> configure tasks = Some ps ->
+    nth_error tasks jb = Some b -> nth_error ps jb = Some prb -> t_chans b = true -> names_ok b ->
+    nth_error (t_in b) i = Some c ->
+    nth_error tasks jt = Some t -> nth_error ps jt = Some prt -> t_chans t = true -> names_ok t ->
+    In o (t_out t) -> o_target o = t_path b ++ s_colon ++ i_name c -> is_explicit (o_target o) = false ->
+    exists a, given (o_name o) prt = Some (conn_addr (t_host b) c a, m_connect, i_tr c) /\
+              given (i_name c) prb = Some (bound_addr c a, m_bind, i_tr c).
+
+Definition s_default : str := [100;101;102;97;117;108;116].
+Definition s_in0 : str := [105;110;48].
+Definition s_in1 : str := [105;110;49].
+Definition s_out0 : str := [111;117;116;48].
+Definition s_h1 : str := [104;49].
+Definition s_h2 : str := [104;50].
+Definition s_ga : str := [103;97].
+
+(* witness 1: the binder is told its explicit target, the peer is sent to the allocated port *)
+Definition wit1_c : inbound := mkIn s_in0 s_default [116;99;112;58;47;47;42;58;53;53;53;53] [] false.
+Definition wit1_o : outbound := mkOut s_out0 s_default [119;46;98;58;105;110;48].
+Definition wit1_wb : wtask := mkW [[119];[98]] [[wit1_c]; []] [[]; []] true [] [] s_h1 [(9000, [])].
+Definition wit1_wt : wtask := mkW [[119];[99]] [[]; []] [[wit1_o]; []] true [] [] s_h2 [].
+Definition wit1_ws : list wtask := [wit1_wb; wit1_wt].
+Definition wit1_prb : props := [(s_in0, ([116;99;112;58;47;47;42;58;53;53;53;53], m_bind, s_default))].
+Definition wit1_prt : props := [(s_out0, ([116;99;112;58;47;47;104;49;58;57;48;48;48], m_connect, s_default))].
+Definition wit1_tasks : list task := map task_of wit1_ws.
+
+Lemma wit1_wf : wf_env wit1_tasks.
+Proof.
+  split.
+  - cbn. constructor; [intros [H|[]]; discriminate|]. constructor; [intros []|constructor].
+  - intros t [<-|[<-|[]]]; cbn; (split; [discriminate|]); (split; [|split; discriminate]);
+      unfold no_colon; cbn; intuition discriminate.
+Qed.
+
+Lemma wit_names_ok w : nodupb str_eqb (names_of (task_of w)) = true ->
+  forallb (fun i => negb (is_alias_key (i_name i))) (t_in (task_of w)) = true -> names_ok (task_of w).
+Proof.
+  intros H1 H2. split.
+  - revert H1. generalize (names_of (task_of w)). induction l as [|x l IH]; cbn; intro H; [constructor|].
+    apply andb_true_iff in H. destruct H as [Hx Hl]. constructor; [|apply IH, Hl].
+    intro HI. apply negb_true_iff in Hx. assert (existsb (str_eqb x) l = true); [|congruence].
+    apply existsb_exists. exists x. split; [exact HI|apply str_eqb_refl].
+  - intros i Hi. rewrite forallb_forall in H2. apply negb_true_iff. apply H2, Hi.
+Qed.
+
+Lemma agree_inv h c a x y :
+  i_ipc c = false -> conn_addr h c a = s_tcp ++ h ++ s_colon ++ x ->
+  bound_addr c a = s_tcp ++ s_star ++ s_colon ++ y -> x = y.
+Proof.
+  unfold conn_addr, bound_addr. intros -> E1 E2.
+  apply app_inv_head in E1. apply app_inv_head in E1. apply app_inv_head in E1.
+  apply app_inv_head in E2. apply app_inv_head in E2. apply app_inv_head in E2. congruence.
+Qed.
+
+Lemma wit1_configure : configure wit1_tasks = Some [wit1_prb; wit1_prt].
+Proof. vm_compute. reflexivity. Qed.
+
+Lemma agreement_refuted : ~ agreement_statement.
+Proof.
+  intro S.
+  destruct (S wit1_tasks [wit1_prb; wit1_prt] 0%nat (task_of wit1_wb) wit1_prb 0%nat wit1_c
+              1%nat (task_of wit1_wt) wit1_prt wit1_o wit1_wf wit1_configure) as (a & A1 & A2);
+    try reflexivity.
+  - apply wit_names_ok; reflexivity.
+  - apply wit_names_ok; reflexivity.
+  - left. reflexivity.
+  - assert (G1 : given (o_name wit1_o) wit1_prt =
+                 Some ([116;99;112;58;47;47;104;49;58;57;48;48;48], m_connect, s_default)) by reflexivity.
+    assert (G2 : given (i_name wit1_c) wit1_prb =
+                 Some ([116;99;112;58;47;47;42;58;53;53;53;53], m_bind, s_default)) by reflexivity.
+    rewrite G1 in A1. rewrite G2 in A2. inversion A1 as [E1]. inversion A2 as [E2].
+    rewrite <- E1 in E2. discriminate.
+Qed.
+
+(* witness 2: a declaration the device interface refuses is not configured but still
+   advertised to the peers *)
+Definition wit2_c : inbound := mkIn s_in0 s_default [110;111;110;115;101;110;115;101] [] false.
+Definition wit2_ws : list wtask :=
+  [ mkW [[119];[98]] [[wit2_c]; []] [[]; []] true [] [] s_h1 [(9000, [])];
+    mkW [[119];[99]] [[]; []] [[wit1_o]; []] true [] [] s_h2 [] ].
+
+Lemma invalid_inbound_advertised :
+  exists ps prb prt, configure_wf wit2_ws = Some ps /\ nth_error ps 0 = Some prb /\ nth_error ps 1 = Some prt /\
+    given (i_name wit2_c) prb = None /\
+    given (o_name wit1_o) prt = Some ([116;99;112;58;47;47;104;49;58;57;48;48;48], m_connect, s_default).
+Proof.
+  eexists. eexists. eexists. vm_compute. repeat split; reflexivity.
+Qed.
+
+(* witness 3: one task, two channels with one alias: accepted, the later one wins *)
+Definition alias_conflict_statement : Prop :=
+  forall tasks j1 j2 b1 b2 i1 i2 c1 c2,
+    (forall x, In x tasks -> path_ok (t_path x)) -> (forall x, In x tasks -> host_ok (t_host x)) ->
+    nth_error tasks j1 = Some b1 -> nth_error tasks j2 = Some b2 ->
+    nth_error (t_in b1) i1 = Some c1 -> nth_error (t_in b2) i2 = Some c2 ->
+    (j1, i1) <> (j2, i2) -> i_global c1 <> [] -> i_global c2 = i_global c1 ->
+    to_target (t_host b1) (mk_ep c1 (t_alloc b1 i1)) <> to_target (t_host b2) (mk_ep c2 (t_alloc b2 i2)) ->
+    configure tasks = None.
+
+Definition wit3_c1 : inbound := mkIn s_in0 s_default [] s_ga false.
+Definition wit3_c2 : inbound := mkIn s_in1 s_default [] s_ga true.
+Definition wit3_w : wtask :=
+  mkW [[119];[98]] [[wit3_c1; wit3_c2]; []] [[]; []] true [] [] s_h1 [(9000, []); (0, [64;112])].
+Definition wit3_ws : list wtask := [wit3_w].
+
+Lemma alias_conflict_refuted : ~ alias_conflict_statement.
+Proof.
+  intro S.
+  assert (X : configure (map task_of wit3_ws) = None).
+  { apply (S (map task_of wit3_ws) 0%nat 0%nat (task_of wit3_w) (task_of wit3_w) 0%nat 1%nat wit3_c1 wit3_c2).
+    - intros x [<-|[]]. cbn. discriminate.
+    - intros x [<-|[]]. cbn. split; discriminate.
+    - reflexivity.
+    - reflexivity.
+    - reflexivity.
+    - reflexivity.
+    - intro E. inversion E.
+    - discriminate.
+    - reflexivity.
+    - cbn. discriminate. }
+  vm_compute in X. discriminate.
+Qed.
+
+Lemma agreement_partial tasks ps jb b prb i c jt t prt o :
+  wf_env tasks -> configure tasks = Some ps ->
+  nth_error tasks jb = Some b -> nth_error ps jb = Some prb -> t_chans b = true -> names_ok b ->
+  nth_error (t_in b) i = Some c ->
+  nth_error tasks jt = Some t -> nth_error ps jt = Some prt -> t_chans t = true -> names_ok t ->
+  In o (t_out t) -> o_target o = t_path b ++ s_colon ++ i_name c -> is_explicit (o_target o) = false ->
+  i_target c = [] ->
+  given (o_name o) prt = Some (conn_addr (t_host b) c (t_alloc b i), m_connect, i_tr c) /\
+  given (i_name c) prb = Some (bound_addr c (t_alloc b i), m_bind, i_tr c).
+Proof.
+  intros W H Hb Hpb Cb Nb Hc Ht Hpt Ct [Nt _] Ho Tg Ex Tc. split.
+  - apply (connect_matches_bind_path tasks ps jt t prt b i c o); try assumption.
+    apply (nth_error_In _ _ Hb).
+  - apply (bind_told tasks ps jb b prb i c); assumption.
+Qed.
+
+(* the two addresses name one endpoint: same port on the binder's host, or the same path *)
+Lemma conn_bound_same_endpoint h c a :
+  (i_ipc c = false -> conn_addr h c a = s_tcp ++ h ++ s_colon ++ dec (fst a) /\
+                      bound_addr c a = s_tcp ++ s_star ++ s_colon ++ dec (fst a)) /\
+  (i_ipc c = true -> conn_addr h c a = s_ipc ++ snd a /\ bound_addr c a = s_ipc ++ snd a).
+Proof. unfold conn_addr, bound_addr. split; intros ->; split; reflexivity. Qed.
+
+(* ====================================================================================== *)
+(* converse: a configuration is refused only for an unmatched target or an alias claimed   *)
+(* by two tasks                                                                            *)
+(* ====================================================================================== *)
+Lemma set_present {V} k n (v : V) m : assoc k m <> None -> assoc k (bm_set n v m) <> None.
+Proof.
+  intro H. destruct (str_eqb k n) eqn:E.
+  - apply str_eqb_spec in E. subst. rewrite assoc_set_same. discriminate.
+  - apply str_eqb_false in E. rewrite assoc_set_other by congruence. exact H.
+Qed.
+
+Lemma env_add_present : forall entries path host bm bm' k,
+  assoc k bm <> None -> env_add path host entries bm = Some bm' -> assoc k bm' <> None.
+Proof.
+  induction entries as [|[n ep] r IH]; intros path host bm bm' k P H; cbn [env_add] in H.
+  - inversion H; subst. exact P.
+  - destruct (is_alias_key n).
+    + destruct (assoc n bm) as [ex|].
+      * destruct (ep_eqb ex ep); [|discriminate]. apply (IH _ _ _ _ _ P H).
+      * apply (IH _ _ _ _ _ (set_present _ _ _ _ P) H).
+    + apply (IH _ _ _ _ _ (set_present _ _ _ _ P) H).
+Qed.
+
+Lemma env_add_written : forall entries path host bm bm' n ep,
+  In (n, ep) entries -> env_add path host entries bm = Some bm' ->
+  assoc (bind_key path n) bm' <> None.
+Proof.
+  induction entries as [|[n0 ep0] r IH]; intros path host bm bm' n ep HI H; [contradiction|].
+  cbn [env_add] in H. destruct HI as [HI|HI].
+  - inversion HI; subst. unfold bind_key. destruct (is_alias_key n).
+    + destruct (assoc n bm) as [ex|] eqn:E.
+      * destruct (ep_eqb ex ep); [|discriminate]. apply (env_add_present _ _ _ _ _ _) with (2 := H).
+        rewrite E. discriminate.
+      * apply (env_add_present _ _ _ _ _ _) with (2 := H). rewrite assoc_set_same. discriminate.
+    + apply (env_add_present _ _ _ _ _ _) with (2 := H). rewrite assoc_set_same. discriminate.
+  - destruct (is_alias_key n0).
+    + destruct (assoc n0 bm) as [ex|].
+      * destruct (ep_eqb ex ep0); [|discriminate]. apply (IH _ _ _ _ _ _ HI H).
+      * apply (IH _ _ _ _ _ _ HI H).
+    + apply (IH _ _ _ _ _ _ HI H).
+Qed.
+
+Lemma env_from_present : forall tasks bm bm' k,
+  assoc k bm <> None -> env_from tasks bm = Some bm' -> assoc k bm' <> None.
+Proof.
+  induction tasks as [|t r IH]; intros bm bm' k P H; cbn [env_from] in H.
+  - inversion H; subst. exact P.
+  - destruct (env_add (t_path t) (t_host t) (t_local t) bm) as [bm1|] eqn:E; [|discriminate].
+    apply (IH bm1 bm' k); [|exact H]. apply (env_add_present _ _ _ _ _ _ P E).
+Qed.
+
+Lemma env_from_written : forall tasks bm bm' t k,
+  In t tasks -> writes_key t k -> env_from tasks bm = Some bm' -> assoc k bm' <> None.
+Proof.
+  induction tasks as [|t' r IH]; intros bm bm' t k HI Wk H; [contradiction|]. cbn [env_from] in H.
+  destruct (env_add (t_path t') (t_host t') (t_local t') bm) as [bm1|] eqn:E; [|discriminate].
+  destruct HI as [HI|HI].
+  - subst t'. destruct Wk as (n & ep & Hi & <-).
+    apply (env_from_present r bm1 bm'); [|exact H]. apply (env_add_written _ _ _ _ _ _ _ Hi E).
+  - apply (IH bm1 bm' t k HI Wk H).
+Qed.
+
+Lemma names_target_writes b c k : In c (t_in b) -> names_target b c k -> writes_key b k.
+Proof.
+  intros Hc Nt.
+  assert (P : forall key, sets_key c key -> exists ep, In (key, ep) (t_local b)).
+  { intros key S. destruct (assoc key (t_local b)) as [ep|] eqn:E.
+    - exists ep. apply local_In_assoc. exact E.
+    - exfalso. revert E. unfold t_local, local_bindmap. apply local_from_present.
+      right. exists c. split; assumption. }
+  destruct Nt as [->|[G ->]].
+  - destruct (P (i_name c) (or_introl eq_refl)) as (ep & Hi). exists (i_name c), ep. split; [exact Hi|reflexivity].
+  - destruct (P (alias_key (i_global c)) (or_intror (conj G eq_refl))) as (ep & Hi).
+    exists (alias_key (i_global c)), ep. split; [exact Hi|]. apply bind_key_alias, alias_key_is_alias.
+Qed.
+
+Lemma all_props_none_inv : forall bm tasks,
+  all_props bm tasks = None -> exists t, In t tasks /\ task_props bm t = None.
+Proof.
+  induction tasks as [|t r IH]; intro H; cbn [all_props] in H; [discriminate|].
+  destruct (task_props bm t) as [p|] eqn:P.
+  - destruct (all_props bm r) as [ps|] eqn:A; [discriminate|].
+    destruct (IH eq_refl) as (t' & Ht' & P'). exists t'. split; [right; exact Ht'|exact P'].
+  - exists t. split; [left; reflexivity|exact P].
+Qed.
+
+Lemma out_writes_none_inv : forall bm outs,
+  out_writes bm outs = None -> exists o, In o outs /\ outbound_props bm o = None.
+Proof.
+  induction outs as [|o r IH]; intro H; cbn [out_writes] in H; [discriminate|].
+  destruct (outbound_props bm o) as [p|] eqn:P.
+  - destruct (out_writes bm r) as [w|] eqn:W; [discriminate|].
+    destruct (IH eq_refl) as (o' & Ho' & P'). exists o'. split; [right; exact Ho'|exact P'].
+  - exists o. split; [left; reflexivity|exact P].
+Qed.
+
+(* where an alias entry of the environment map comes from *)
+Lemma env_add_keys : forall entries path host bm bm' k ex,
+  env_add path host entries bm = Some bm' -> assoc k bm' = Some ex ->
+  assoc k bm <> None \/ exists n ep, In (n, ep) entries /\ bind_key path n = k.
+Proof.
+  induction entries as [|[n ep] r IH]; intros path host bm bm' k ex H E; cbn [env_add] in H.
+  - inversion H; subst. left. rewrite E. discriminate.
+  - assert (Hset : forall key v, (assoc k (bm_set key v bm) <> None \/
+                                  exists n' ep', In (n', ep') r /\ bind_key path n' = k) ->
+                                 bind_key path n = key ->
+                                 assoc k bm <> None \/ exists n' ep', In (n', ep') ((n, ep) :: r) /\ bind_key path n' = k).
+    { intros key v [P|(n' & ep' & Hi & Bk)] Bn.
+      2: { right. exists n', ep'. split; [right; exact Hi|exact Bk]. }
+      destruct (str_eqb k key) eqn:Q.
+      - apply str_eqb_spec in Q. right. exists n, ep. split; [left; reflexivity|]. rewrite Q. exact Bn.
+      - apply str_eqb_false in Q. rewrite assoc_set_other in P by congruence. left. exact P. }
+    destruct (is_alias_key n) eqn:A.
+    + destruct (assoc n bm) as [ex0|] eqn:E0.
+      * destruct (ep_eqb ex0 ep); [|discriminate].
+        destruct (IH _ _ _ _ _ _ H E) as [P|(n' & ep' & Hi & Bk)]; [left; exact P|].
+        right. exists n', ep'. split; [right; exact Hi|exact Bk].
+      * apply (Hset n (to_target host ep) (IH _ _ _ _ _ _ H E)). apply bind_key_alias, A.
+    + apply (Hset (path ++ s_colon ++ n) (to_target host ep) (IH _ _ _ _ _ _ H E)). apply bind_key_path, A.
+Qed.
+
+(* a task is refused only because an alias it claims is already there *)
+Lemma env_add_none : forall entries path host bm,
+  path_ok path -> NoDup (map fst entries) -> env_add path host entries bm = None ->
+  exists k ep, In (k, ep) entries /\ is_alias_key k = true /\ assoc k bm <> None.
+Proof.
+  induction entries as [|[n ep] r IH]; intros path host bm Hp ND H; cbn [env_add] in H; [discriminate|].
+  cbn [map fst] in ND. inversion ND as [|x xs Hnot ND']; subst.
+  assert (Step : forall key v, (is_alias_key key = false \/ key = n) ->
+            (exists k ep', In (k, ep') r /\ is_alias_key k = true /\ assoc k (bm_set key v bm) <> None) ->
+            exists k ep', In (k, ep') ((n, ep) :: r) /\ is_alias_key k = true /\ assoc k bm <> None).
+  { intros key v Hk (k & ep' & Hi & A & P). exists k, ep'. split; [right; exact Hi|]. split; [exact A|].
+    rewrite assoc_set_other in P; [exact P|]. intro X. subst key. destruct Hk as [Hk|Hk]; [congruence|].
+    subst k. apply Hnot. change n with (fst (n, ep')). apply in_map. exact Hi. }
+  destruct (is_alias_key n) eqn:A.
+  - destruct (assoc n bm) as [ex|] eqn:E.
+    + destruct (ep_eqb ex ep).
+      * destruct (IH _ _ _ Hp ND' H) as (k & ep' & Hi & A' & P). exists k, ep'.
+        split; [right; exact Hi|]. split; assumption.
+      * exists n, ep. split; [left; reflexivity|]. split; [exact A|]. rewrite E. discriminate.
+    + apply (Step n (to_target host ep)); [right; reflexivity|]. apply (IH _ _ _ Hp ND' H).
+  - apply (Step (path ++ s_colon ++ n) (to_target host ep)); [left; apply path_key_not_alias, Hp|].
+    apply (IH _ _ _ Hp ND' H).
+Qed.
+
+Definition alias_prov (bm : bindmap) (done : list task) : Prop :=
+  forall k, is_alias_key k = true -> assoc k bm <> None ->
+            exists j b e, nth_error done j = Some b /\ In (k, e) (t_local b).
+
+Lemma env_from_none : forall rest done bm,
+  (forall t, In t rest -> path_ok (t_path t)) -> alias_prov bm done -> env_from rest bm = None ->
+  exists j1 j2 b1 b2 k e1 e2,
+    (j1 < j2)%nat /\ nth_error (done ++ rest) j1 = Some b1 /\ nth_error (done ++ rest) j2 = Some b2 /\
+    is_alias_key k = true /\ In (k, e1) (t_local b1) /\ In (k, e2) (t_local b2).
+Proof.
+  induction rest as [|t r IH]; intros done bm Hp Pv H; cbn [env_from] in H; [discriminate|].
+  destruct (env_add (t_path t) (t_host t) (t_local t) bm) as [bm1|] eqn:E.
+  - assert (Pv1 : alias_prov bm1 (done ++ [t])).
+    { intros k A P. destruct (assoc k bm1) as [ex|] eqn:X; [|congruence].
+      destruct (env_add_keys _ _ _ _ _ _ _ E X) as [P0|(n & ep & Hi & Bk)].
+      - destruct (Pv k A P0) as (j & b & e & Hj & He). exists j, b, e. split; [|exact He].
+        rewrite nth_error_app1; [exact Hj|]. apply nth_error_Some. congruence.
+      - exists (length done), t, ep. split.
+        + rewrite nth_error_app2 by lia. rewrite Nat.sub_diag. reflexivity.
+        + destruct (is_alias_key n) eqn:An.
+          * rewrite bind_key_alias in Bk by exact An. subst n. exact Hi.
+          * rewrite bind_key_path in Bk by exact An. rewrite <- Bk in A.
+            rewrite path_key_not_alias in A by (apply Hp; left; reflexivity). discriminate. }
+    destruct (IH (done ++ [t]) bm1 (fun x Hx => Hp x (or_intror Hx)) Pv1 H)
+      as (j1 & j2 & b1 & b2 & k & e1 & e2 & Lt & N1 & N2 & R).
+    exists j1, j2, b1, b2, k, e1, e2. rewrite <- app_assoc in N1, N2. cbn [app] in N1, N2.
+    split; [exact Lt|]. split; [exact N1|]. split; [exact N2|exact R].
+  - destruct (env_add_none _ _ _ _ (Hp t (or_introl eq_refl)) (local_bindmap_nodup _ _) E) as (k & ep & Hi & A & P).
+    destruct (Pv k A P) as (j & b & e & Hj & He).
+    assert (Lj : (j < length done)%nat) by (apply nth_error_Some; congruence).
+    exists j, (length done), b, t, k, e, ep. split; [exact Lj|]. split.
+    + rewrite nth_error_app1 by exact Lj. exact Hj.
+    + split; [rewrite nth_error_app2 by lia; rewrite Nat.sub_diag; reflexivity|].
+      split; [exact A|]. split; assumption.
+Qed.
+
+Lemma fails_only_for_cause tasks :
+  (forall t, In t tasks -> path_ok (t_path t)) -> configure tasks = None ->
+  (exists t o, In t tasks /\ t_chans t = true /\ In o (t_out t) /\ is_explicit (o_target o) = false /\
+               forall b c, In b tasks -> In c (t_in b) -> ~ names_target b c (o_target o)) \/
+  (exists j1 j2 b1 b2 k e1 e2, (j1 < j2)%nat /\ nth_error tasks j1 = Some b1 /\ nth_error tasks j2 = Some b2 /\
+               is_alias_key k = true /\ In (k, e1) (t_local b1) /\ In (k, e2) (t_local b2)).
+Proof.
+  intros Hp H. unfold configure in H. destruct (env_bindmap tasks) as [bm|] eqn:B.
+  - left. destruct (all_props_none_inv _ _ H) as (t & Ht & P). unfold task_props in P.
+    destruct (t_chans t) eqn:C; [|discriminate].
+    destruct (out_writes bm (t_out t)) as [w|] eqn:W; [discriminate|].
+    destruct (out_writes_none_inv _ _ W) as (o & Ho & Po). unfold outbound_props in Po.
+    destruct (is_explicit (o_target o)) eqn:Ex; [discriminate|].
+    destruct (assoc (o_target o) bm) as [ep|] eqn:As; [discriminate|].
+    exists t, o. repeat (split; [assumption|]). intros b c Hb Hc Nt.
+    apply (env_from_written tasks [] bm b (o_target o) Hb (names_target_writes _ _ _ Hc Nt) B). exact As.
+  - right. apply (env_from_none tasks [] [] Hp); [|exact B].
+    intros k _ P. exfalso. apply P. reflexivity.
+Qed.
